@@ -534,6 +534,7 @@ func (c *FnCtx) evalInstr(v ssa.Value, get getter, h Heap, checks bool) (Val, bo
 		x := get(in.X)
 		switch in.Op {
 		case token.MUL:
+			c.refuseAbsPtr(x)
 			return c.load(x, h, checks), true
 		case token.NOT:
 			return Val{T: not(x.T), Ty: in.Type()}, true
@@ -628,6 +629,7 @@ func (c *FnCtx) evalInstr(v ssa.Value, get getter, h Heap, checks bool) (Val, bo
 		return x, true
 	case *ssa.FieldAddr:
 		x := get(in.X)
+		c.refuseAbsPtr(x)
 		c.nilCheck(x, checks, "field address")
 		pt := in.X.Type().Underlying().(*types.Pointer)
 		r := Val{T: x.T, Ty: in.Type(), BaseTy: x.BaseTy}
@@ -1052,4 +1054,11 @@ func smtConstInt(s string) (*big.Int, bool) {
 		v.Neg(v)
 	}
 	return v, true
+}
+
+// refuseAbsPtr: an opaque merged interior pointer (abstracting tier) must not be dereferenced.
+func (c *FnCtx) refuseAbsPtr(x Val) {
+	if strings.Contains(x.T, "absptr_") {
+		c.unsup("dereference of a merged interior pointer")
+	}
 }
